@@ -1,4 +1,13 @@
 //@include prelude/header.rs
+// Unit imports_closure — C14 (closure part) and the termination clause of C12 for imports.rs:
+//   get_imported_fixtures / compute_imported_fixtures (mutually recursive through `visited`) and
+//   is_fixture_imported_in_file, extracted verbatim.  Abstract import graph + closure: prelude/imports_spec.rs,
+//   L2 lemmas + canaries: prelude/imports_l2.rs.
+// Modelled state: definitions, file_definitions, definitions_version, file_cache, imported_fixtures_cache.
+// The cache insert on the read path (&self, one DashMap statement) is a `&mut self` write here (T3), so both
+// recursive functions take `&mut self`.  The callees below are ASSUMED (external_body): their own caches
+// (canonical_path_cache, ast_cache, line_index_cache), the file system, site-packages paths and editable-install
+// roots are outside the model and treated as constants.
 use rustpython_parser::ast::{Stmt, Expr};
 verus! {
 global size_of usize == 8;  // A6: 64-bit target
@@ -49,6 +58,11 @@ impl FixtureDatabase {
     pub open spec fn memo_exact(&self) -> bool { memo_exact(self.env(), self.version(), self.memo()) }
 
     // ---- callee contracts ASSUMED here
+    //  get_canonical_path: a pure function `canon`, idempotent
+    //  get_file_content:   a function of (file_cache, path); a readable path belongs to the FINITE set known_files(file_cache)
+    //  hash_content:       a function of the text (no injectivity assumed)
+    //  get_parsed_ast:     determined by the text alone (i.e. its hash-keyed ast_cache never confuses two texts)
+    //  extract_fixture_imports / extract_pytest_plugins / resolve_module_to_file: uninterpreted functions of their inputs
     #[verifier::external_body]
     pub(crate) fn get_canonical_path(&self, path: PathBuf) -> (r: PathBuf)
         ensures pbv(&r) == canon(pbv(&path)),
